@@ -164,8 +164,6 @@ func (b *assignmentBuilder) structFieldAndStructGettersAndFields(lhs bmodel.Node
 
 	var a gmodel.Assignment
 	var err error
-	// To prevent logging "no assignment for d.NestedData"…
-	nested := false
 
 	handler := func(rhs bmodel.Node) (done bool) {
 		if !b.isStructFieldAccessible(rhsStruct, rhs.ObjName()) ||
@@ -190,7 +188,6 @@ func (b *assignmentBuilder) structFieldAndStructGettersAndFields(lhs bmodel.Node
 
 		if util.IsStructType(lhs.ExprType()) &&
 			util.IsStructType(rhs.ExprType()) {
-			nested = true
 			nestStruct := gmodel.NestStruct{}
 			if util.IsPtr(lhs.ExprType()) {
 				nestStruct.InitExpr = fmt.Sprintf("%v = %v{}", lhs.AssignExpr(), b.imports.TypeName(lhs.ExprType()))
@@ -215,7 +212,7 @@ func (b *assignmentBuilder) structFieldAndStructGettersAndFields(lhs bmodel.Node
 
 	if opts.Rule == gmodel.MatchRuleName {
 		bmodel.IterateStructFields(rhsStruct, handler)
-		if a != nil || err != nil || nested {
+		if a != nil || err != nil {
 			return a, err
 		}
 	}
